@@ -9,7 +9,10 @@ def sh(cmd, **kw):
     p = subprocess.run(cmd, shell=True, stdout=subprocess.PIPE, stderr=subprocess.STDOUT, **kw)
     return p.returncode, p.stdout.decode('utf-8', 'replace')
 def main():
-    tags = sys.argv[1:] or sorted(os.listdir(f'{V}/seeded'))
+    own = '--own' in sys.argv           # only the seed's own property (plus the checks that detected it when its own did not)
+    skip_done = '--skip-done' in sys.argv
+    args = [a for a in sys.argv[1:] if not a.startswith('--')]
+    tags = args or sorted(os.listdir(f'{V}/seeded'))
     rc, st = sh('git -C /repo status --short')
     if st.strip():
         print('refusing: /repo is not clean'); return 2
@@ -21,6 +24,8 @@ def main():
         if not os.path.exists(mp):
             continue
         meta = json.load(open(mp))
+        if skip_done and meta.get('rechecked_at') == head + '+corpus':
+            continue
         rc, out = sh(f'git -C /repo apply {d}/patch.diff')
         if rc != 0:
             meta['applies_to_head'] = False
@@ -31,6 +36,9 @@ def main():
             continue
         try:
             ids = [meta['property']] + [k for k in meta.get('checks', {}) if k != meta['property']]
+            if own:
+                prev = meta.get('detected_by', [])
+                ids = [meta['property']] + ([k for k in prev if k != meta['property']] if meta['property'] not in prev else [])
             checks, det = {}, []
             for pid in ids:
                 rc, out = sh(f'{V}/check {pid} --tier quick', cwd=V)
@@ -51,7 +59,12 @@ def main():
                         print('corpus: could not store', tag, pid, e)
         finally:
             sh('git -C /repo checkout -- .')
-        meta.update(checks=checks, detected_by=det, repo_head=head, applies_to_head=True)
+        if own:
+            old = dict(meta.get('checks', {}))
+            old.update(checks)
+            checks = old
+            det = sorted(set(det) | {k for k in meta.get('detected_by', []) if k not in ids})
+        meta.update(checks=checks, detected_by=det, repo_head=head, applies_to_head=True, rechecked_at=head + '+corpus')
         json.dump(meta, open(mp, 'w'), indent=1)
         summary.append((tag, 'detected by ' + ','.join(det) if det else 'MISSED', ''))
         print(summary[-1], flush=True)
